@@ -27,7 +27,7 @@ def generate(rng, tier):
                           p_helper=0.15, p_tabs=rng.choice([0.0, 0.3]), p_ps2=rng.choice([0.2, 0.5, 0.8]))
     cfg['n_modules'] = (1, 3)
     cfg['n_funcs'] = (1, 3)
-    cfg['forms'] = list(gen.SIMPLE_FORMS) + ['strdirective', 'tryexc', 'emitop', 'emitnoeol', 'writeout', 'writeout', 'const']
+    cfg['forms'] = list(gen.SIMPLE_FORMS) + ['strdirective', 'tryexc', 'emitop', 'emitnoeol', 'writeout', 'writeout', 'const', 'modsay', 'tqdirective']
     if rng.random() < 0.5:
         # names that also exist at module level of the module under test: rebound,
         # shadowed, deleted and read back across part boundaries
@@ -88,7 +88,13 @@ def generate(rng, tier):
                              'msg': 'fault ' + p['pid'], 'depth': rng.choice([0, 0, 2])})
             else:
                 plan.append({'dt': dtid, 'k': k, 'pid': p['pid'], 'kind': 'swap_stdout'})
-    return {'profile': ID, 'world': world, 'ops': ops, 'plan': plan, 'env': {'listing_seed': rng.randint(0, 99)}}
+    env = {'listing_seed': rng.randint(0, 99)}
+    if rng.random() < 0.15:
+        # a module that prints while it is being imported: that is not the doctest's output
+        plan.append({'import': rng.choice(world['modules'])['name'], 'kind': 'print'})
+    if rng.random() < 0.1:
+        env['debug_doctest'] = True         # xdoctest's own debug tracing is switched on in this process
+    return {'profile': ID, 'world': world, 'ops': ops, 'plan': plan, 'env': env}
 
 
 N_SWEEPS_THOROUGH = 200
